@@ -1,6 +1,6 @@
 (* C05 - tagged-parameter lists stay well-formed under any edit history.
    Statements only; proofs in Proofs/TagsProofs.v. *)
-From LW Require Import Base.Bytes Model.TagIter Spec.TagSpec Model.Tags Gen.Consts Proofs.TagsProofs.
+From LW Require Import Base.Bytes Model.TagIter Spec.TagSpec Model.Tags Gen.Consts Gen.Layout Proofs.TagsProofs.
 Local Open Scope Z_scope.
 
 (* the stored bytes are a well-formed element sequence and the recorded length is the byte count *)
@@ -50,3 +50,10 @@ Print Assumptions c05_step_refines_total.
 Theorem c05_enc_injective : forall l1 l2, wf_tags l1 -> wf_tags l2 -> enc l1 = enc l2 -> l1 = l2.
 Proof. exact enc_inj. Qed.
 Print Assumptions c05_enc_injective.
+
+(* the models keep the recorded length in Z.  That is faithful only while the C field that holds it cannot wrap: it is
+   as wide as the host's size_t (the widths are re-read from the compiled headers on every run) *)
+Theorem c05_length_field_wide :
+  fsz_libwifi_tagged_parameters__length = host_sizeof_size_t /\ 8 <= host_sizeof_size_t.
+Proof. split; [reflexivity | vm_compute; discriminate]. Qed.
+Print Assumptions c05_length_field_wide.
